@@ -318,12 +318,35 @@ func (c *Ctx) equalityReadsDataOnly(prefix string) {
 			fn2.KeepDead = true
 			an2 := fn2.Analyze(nil)
 			fn2.KeepDead = false
+			// the parsed-hash variables: nil-initialised pointer locals, or locals assigned from a small helper that
+			// returns such a pointer (the parsing may have been moved into it)
 			var parsed []*ast.Ident
+			helperOf := map[types.Object]*load.FuncInfo{}
 			ast.Inspect(fi.Decl.Body, func(x ast.Node) bool {
-				if vs, ok := x.(*ast.ValueSpec); ok && len(vs.Values) == 0 {
-					for _, id := range vs.Names {
-						if _, isPtr := info.TypeOf(id).Underlying().(*types.Pointer); isPtr {
-							parsed = append(parsed, id)
+				switch y := x.(type) {
+				case *ast.ValueSpec:
+					if len(y.Values) == 0 {
+						for _, id := range y.Names {
+							if _, isPtr := info.TypeOf(id).Underlying().(*types.Pointer); isPtr {
+								parsed = append(parsed, id)
+							}
+						}
+					}
+				case *ast.AssignStmt:
+					if len(y.Lhs) == 1 && len(y.Rhs) == 1 {
+						id, isID := y.Lhs[0].(*ast.Ident)
+						call, isCall := ast.Unparen(y.Rhs[0]).(*ast.CallExpr)
+						if isID && isCall {
+							if pt, isPtr := info.TypeOf(id).Underlying().(*types.Pointer); isPtr {
+								if _, basic := pt.Elem().Underlying().(*types.Basic); basic {
+									if h := gf.StaticCallee(info, call); h != nil {
+										if hfi := c.P.FuncInfoOf(h); hfi != nil && hfi.Pkg == fi.Pkg && c.liftedAway(hfi) && helperOf[info.ObjectOf(id)] == nil {
+											parsed = append(parsed, id)
+											helperOf[info.ObjectOf(id)] = hfi
+										}
+									}
+								}
+							}
 						}
 					}
 				}
@@ -348,25 +371,62 @@ func (c *Ctx) equalityReadsDataOnly(prefix string) {
 				c.Implies(an2.StateBefore(ret), gf.And(conj...), prefix+"-hash-label-only-when-numeric", name, ret.Pos())
 				return true
 			})
+			// a parsed-hash variable becomes non-nil only after a successful numeric parse: at every store of a non-nil
+			// value (in EqualRevision, or at a non-nil return of the helper) the error of a strconv.Parse* call is nil
+			parseOK := func(hostFI *load.FuncInfo, hfn *gf.Fn, han *gf.Analysis, site ast.Node) bool {
+				hinfo := hostFI.Pkg.TypesInfo
+				var errs []*ast.Ident
+				ast.Inspect(hostFI.Decl.Body, func(y ast.Node) bool {
+					if as, ok := y.(*ast.AssignStmt); ok && len(as.Rhs) == 1 && len(as.Lhs) == 2 && as.End() <= site.Pos() {
+						if call, ok := ast.Unparen(as.Rhs[0]).(*ast.CallExpr); ok && strings.HasPrefix(calleeName(hinfo, call), "strconv.Parse") {
+							if eid, ok := as.Lhs[1].(*ast.Ident); ok {
+								errs = append(errs, eid)
+							}
+						}
+					}
+					return true
+				})
+				st := han.StateBefore(site)
+				if !st.Reachable() {
+					return true
+				}
+				for _, e := range errs {
+					if good, _ := st.Implies(gf.FNil(hfn.Term(e))); good {
+						return true
+					}
+				}
+				return false
+			}
+			doneHelper := map[*load.FuncInfo]bool{}
 			for _, id := range parsed {
+				if hfi := helperOf[info.ObjectOf(id)]; hfi != nil {
+					if doneHelper[hfi] {
+						continue
+					}
+					doneHelper[hfi] = true
+					hfn := c.E.FnOf(hfi)
+					hfn.KeepDead = true
+					han := hfn.Analyze(nil)
+					hfn.KeepDead = false
+					ast.Inspect(hfi.Decl.Body, func(x ast.Node) bool {
+						ret, ok := x.(*ast.ReturnStmt)
+						if !ok || len(ret.Results) != 1 || isNilExpr(hfi.Pkg.TypesInfo, ret.Results[0]) {
+							return true
+						}
+						c.Check(parseOK(hfi, hfn, han, ret), prefix+"-hash-label-only-when-numeric", hfi.Obj.Name()+": return "+types.ExprString(ret.Results[0]), ret.Pos(), "a non-nil parsed hash is returned only after a successful strconv parse of the label", "a parsed hash is produced without a successful numeric parse")
+						return true
+					})
+					continue
+				}
 				ast.Inspect(fi.Decl.Body, func(x ast.Node) bool {
 					as, ok := x.(*ast.AssignStmt)
 					if !ok || len(as.Lhs) != 1 || fn2.Term(as.Lhs[0]).Key() != fn2.Term(id).Key() {
 						return true
 					}
-					// dominated by err == nil of a strconv parse in the same block chain
-					okParse := false
-					p := pathTo(fi.Decl.Body, as)
-					for j := len(p) - 1; j >= 0; j-- {
-						if ifs, isIf := p[j].(*ast.IfStmt); isIf {
-							if be, isBE := ast.Unparen(ifs.Cond).(*ast.BinaryExpr); isBE && be.Op.String() == "==" && isNilExpr(info, be.Y) {
-								if src := assignedFromCall(fi, info, be.X); src != nil && strings.HasPrefix(calleeName(info, src), "strconv.Parse") {
-									okParse = true
-								}
-							}
-						}
+					if len(as.Rhs) == 1 && isNilExpr(info, as.Rhs[0]) {
+						return true
 					}
-					c.Check(okParse, prefix+"-hash-label-only-when-numeric", s.name+": "+types.ExprString(as.Lhs[0])+" = "+types.ExprString(as.Rhs[0]), as.Pos(), "set only after a successful strconv parse of the label", "a parsed-hash variable is set without a successful numeric parse")
+					c.Check(parseOK(fi, fn2, an2, as), prefix+"-hash-label-only-when-numeric", s.name+": "+types.ExprString(as.Lhs[0])+" = "+types.ExprString(as.Rhs[0]), as.Pos(), "set only after a successful strconv parse of the label", "a parsed-hash variable is set without a successful numeric parse")
 					return true
 				})
 			}
